@@ -53,6 +53,9 @@ FIRST_MISSED = {
     "C17-5": "no check reported it -> SIDDIR: SID() returns only a hash computed in this invocation (no remembered value)",
     "C06-5": "own property silent (reported by C18 LOCKORD; third independent rediscovery of this inversion) -> C06 imports C18 and C09",
     "C06-6": "own property silent (reported by C01/C09 SIZE) -> C06 imports C18 and C09",
+    "C12-5": "no check reported it -> EXIT/CBCTX: the mailbox transport callbacks poll the context parameter in every loop and pass exactly that context on",
+    "C12-6": "no check reported it -> ORDER: every shutdown step of gbn Close lies on every path through the once body",
+    "C03-5": "no check reported it -> HSK-SIB: the passphrase is stretched exactly when the pattern is XX",
     "C06-3": "no check reported it -> RATELIMIT: once lastResend is refreshed the packets are transmitted",
 }
 
